@@ -118,6 +118,15 @@ def check(ctx):
         return
 
     writes = registry_writes(fn)
+    if not writes:
+        # set_metrics delegates the stores (e.g. to a private helper): the flow rules R16.1 / R16.2 have nothing to look at
+        # here; what they guard - every variable of a batch registered, nothing written before a refusal - is decided by
+        # interpreting set_metrics with its helpers in the registry table (R16.3) and the constructor table (R16.5)
+        ctx.ok("R16.1", "registry stores of set_metrics", "made by a helper; batch coverage decided by the registry table")
+        _registry_table(ctx, P, fi)
+        _who_may_write(ctx, P)
+        _constructor_registry(ctx, P)
+        return
     ctx.floor("R16.1", "registry stores in set_metrics", len(writes), 3)
 
     def loops_over_value():
@@ -234,46 +243,139 @@ def check(ctx):
     # ---------------- R16.3 registry table: set_metrics interpreted on modelled registries against the one-at-a-time reference
     _registry_table(ctx, P, fi)
 
-    # ---------------- R16.4 who may write
-    allowed = {"grid:Grid.__init__", "grid:Grid.set_metrics"}
+    _who_may_write(ctx, P)
+
+    # ---------------- R16.5 constructor: Grid(..., metrics={...}) leaves the registry that the same entries, registered one
+    # call at a time in mapping order, leave
+    _constructor_registry(ctx, P)
+
+def _who_may_write(ctx, P):
+    # ---------------- R16.4 who may write: the two public entry points, and private helpers that only they (transitively) call
+    from ..callgraph import CallGraph
+
+    cg = CallGraph(P)
+    callers = {}
+    for q, outs_ in cg.edges.items():
+        for callee in outs_:
+            callers.setdefault(callee, set()).add(q)
+    roots = {"grid:Grid.__init__", "grid:Grid.set_metrics"}
+
+    def only_from_roots(q, seen=()):
+        if q in roots:
+            return True
+        cs = callers.get(q, set()) - {q}
+        if not cs or q in seen:
+            return False
+        return all(only_from_roots(c, seen + (q,)) for c in cs)
+
     nfun = 0
     for q, f in P.functions.items():
         nfun += 1
         ws = registry_writes(f.node)
+        if not ws or only_from_roots(q):
+            continue
         for node, stored, kind in ws:
             st = stmt_of(f.node, node) or node
-            if q in allowed:
-                continue
-            ctx.report("R16.4", f, norm(st, 120), f"{q} stores into the metric registry; only Grid.__init__ and Grid.set_metrics may (what get_metric returns must depend on the registrations alone)", st)
-    ctx.ok("R16.4", f"{nfun} functions scanned for stores into `{REG}`", "only the constructor and set_metrics write")
+            ctx.report("R16.4", f, norm(st, 120), f"{q} stores into the metric registry and is reachable from outside Grid.__init__ / Grid.set_metrics (callers: {sorted(callers.get(q, []))[:3]}): what get_metric returns must depend on the registrations alone", st)
+    ctx.ok("R16.4", f"{nfun} functions scanned for stores into `{REG}`", "only the constructor, set_metrics and helpers private to them write")
     # get_metric must exist and read the registry (anchor)
     gm = P.func("grid:Grid.get_metric")
     reads = [n for n in own_nodes(gm.node) if isinstance(n, ast.Attribute) and n.attr == REG]
     ctx.floor("R16.4", "registry reads in get_metric", len(reads), 1)
 
-    # ---------------- R16.5 constructor registers every entry through set_metrics
+
+def _registry_model():
+    """Pool of metric variables, dataset models and the one-at-a-time reference shared by R16.3 and R16.5."""
+    from ..absint import Obj, Raised, Sym
+    from ..xmodel import dimsym
+
+    xc, xg, yc, yg = dimsym("AX", "center"), dimsym("AX", "left"), dimsym("AY", "center"), dimsym("AY", "left")
+    pool = {"a_cc": (yc, xc), "b_cc": (xc, yc), "a_gc": (yc, xg), "b_gc": (xg, yc), "a_cg": (yg, xc), "a_gg": (yg, xg), "dx_c": (xc,), "dx_g": (xg,)}
+
+    def var(name, eff=()):
+        return Obj("DataArray", name, eff, {"dims": pool[name], "name": name, "__isinstance__": ("DataArray",)})
+
+    def getitem(ev, recv, args, kw, node):
+        k = args[0]
+        k = k.name if isinstance(k, Sym) else k
+        if k not in pool:
+            raise Raised("KeyError", node)
+        return var(k)
+
+    def reset_coords(ev, recv, args, kw, node):
+        return recv.with_eff(("reset_coords", tuple(sorted(kw.items()))))
+
+    models = {("Dataset", "__getitem__"): getitem, ("DataArray", "reset_coords"): reset_coords}
+
+    def reference(registry, calls):
+        """calls: [(key, [names], overwrite)] registered one variable at a time, in order."""
+        reg = {k: list(v) for k, v in registry.items()}
+        for key, batch, overwrite in calls:
+            for name in batch:
+                lst = reg.setdefault(key, [])
+                hit = [i for i, old in enumerate(lst) if set(pool[old]) == set(pool[name])]
+                if hit:
+                    if not overwrite:
+                        return reg, "raise"
+                    for i in hit:
+                        lst[i] = name
+                else:
+                    lst.append(name)
+        return reg, "return"
+
+    return pool, var, models, reference
+
+
+def _constructor_registry(ctx, P):
+    from ..absint import Evaluator, Obj, Sym, Unmodelled
+    from ..xmodel import dimsym
+
     init = P.func("grid:Grid.__init__")
-    iff = FuncFlow(init.node)
-    calls = [n for n in own_nodes(init.node) if isinstance(n, ast.Call) and isinstance(n.func, ast.Attribute) and n.func.attr == "set_metrics"]
-    ctx.floor("R16.5", "set_metrics calls in Grid.__init__", len(calls), 1)
-    for c in calls:
-        st = stmt_of(init.node, c)
-        loops = enclosing_loops(init.node, st)
-        ok = False
-        for l in loops:
-            if isinstance(l, ast.For) and isinstance(l.iter, ast.Call) and isinstance(l.iter.func, ast.Attribute) and l.iter.func.attr == "items":
-                roots = origin_defs(iff, iff.node_of(l), l.iter.func.value)
-                if any(d.kind == "param" and d.name == "metrics" for d in roots) or any(d.name == "metrics" for d in roots):
-                    tn = [x.id for x in ast.walk(l.target) if isinstance(x, ast.Name)]
-                    argn = [a.id for a in c.args if isinstance(a, ast.Name)] + [k.value.id for k in c.keywords if isinstance(k.value, ast.Name)]
-                    if len(tn) == 2 and argn[:2] == tn:
-                        ok = True
-        if ok:
-            ctx.ok("R16.5", norm(st, 100), "called for every (key, value) of metrics.items(), in mapping order")
+    pool, var, models, reference = _registry_model()
+    AX, AY = Sym("AX"), Sym("AY")
+    cases = {
+        "two axis sets, several variables each": {(AX,): ["dx_c", "dx_g"], (AX, AY): ["a_cc", "a_gc", "a_gg"]},
+        "one variable given as a bare name": {(AX, AY): "a_cc"},
+        "axis sets listed in the other order": {(AX, AY): ["a_gg"], (AX,): ["dx_g", "dx_c"]},
+        "the same axis set given twice (in both orders) with variables at one position": {(AX, AY): ["a_cc", "a_gg"], (AY, AX): ["b_cc"]},
+    }
+    for name, metrics in cases.items():
+        inst = f"Grid(metrics=...) with {name}"
+
+        def make():
+            coords = {a: {"center": dimsym(a.name, "center"), "left": dimsym(a.name, "left")} for a in (AX, AY)}
+            dims = tuple(d for c in coords.values() for d in c.values())
+            ds = Obj("Dataset", "ds", (), {"dims": dims, "variables": list(pool), "data_vars": list(pool), "__isinstance__": ("Dataset",)})
+            me = Obj("Grid", "self", (), {"__class__": "grid:Grid"})
+            return dict(self=me, ds=ds, coords=coords, periodic=False, fill_value=None, default_shifts=None, boundary=None, face_connections=None,
+                        metrics={k: (list(v) if isinstance(v, list) else v) for k, v in metrics.items()}, autoparse_metadata=False)
+
+        ev = Evaluator(P, models={"warnings.warn": lambda ev_, a, k, n: None}, method_models=models)
+        try:
+            outs = ev.run_paths(init, make)
+        except Unmodelled as e:
+            ctx.unknown("R16.5", inst, str(e))
+            continue
+        calls = [(frozenset(k), list(v) if isinstance(v, list) else [v], False) for k, v in metrics.items()]
+        want, want_kind = reference({}, calls)
+        bad = None
+        for o in outs:
+            me = o.env.get("self")
+            reg = me.attrs.get("_metrics") if isinstance(me, Obj) else None
+            got = {k: [getattr(v, "name", repr(v)) for v in vs] for k, vs in reg.items()} if isinstance(reg, dict) else reg
+            if want_kind == "raise":
+                if o.kind != "raise":
+                    bad = "a later entry for an occupied slot is accepted by the constructor (it silently replaces the earlier variable); the same entries given to set_metrics one call at a time are refused"
+            elif o.kind != "return":
+                bad = f"the constructor raises {o.value}"
+            elif got != want or (isinstance(got, dict) and list(got) != list(want)):
+                show = lambda r: {tuple(sorted(x.name for x in k)): v for k, v in r.items()} if isinstance(r, dict) else r
+                bad = f"registry after construction is {show(got)}; registering the entries one call at a time, in mapping order, gives {show(want)}"
+        if bad:
+            ctx.report("R16.5", init, inst, bad)
         else:
-            ctx.report("R16.5", init, norm(st, 120), "the constructor does not pass every (axes, variables) entry of `metrics`, in mapping order, to set_metrics", st)
-        if any(k.arg == "overwrite" for k in c.keywords) or len(c.args) > 2:
-            ctx.report("R16.5", init, norm(st, 120) + " [overwrite]", "the constructor passes an overwrite flag: constructor entries must be registered like plain set_metrics calls", st)
+            ctx.ok("R16.5", inst, "registry = the entries registered one call at a time, in mapping order")
+
 
 
 def _registry_table(ctx, P, fi):
@@ -288,44 +390,13 @@ def _registry_table(ctx, P, fi):
     from ..xmodel import dimsym, make_grid
 
     AX, AY = Sym("AX"), Sym("AY")
-    xc, xg, yc, yg = dimsym("AX", "center"), dimsym("AX", "left"), dimsym("AY", "center"), dimsym("AY", "left")
-    # pool of metric variables of the axis set {AX, AY} at four positions, two candidates per position, dims in varying order
-    pool = {
-        "a_cc": (yc, xc), "b_cc": (xc, yc), "a_gc": (yc, xg), "b_gc": (xg, yc), "a_cg": (yg, xc), "a_gg": (yg, xg),
-        "dx_c": (xc,), "dx_g": (xg,),
-    }
-
-    def var(name, eff=()):
-        return Obj("DataArray", name, eff, {"dims": pool[name], "name": name, "__isinstance__": ("DataArray",)})
+    pool, var, _models, _reference = _registry_model()
 
     def ds_models():
-        def getitem(ev, recv, args, kw, node):
-            k = args[0]
-            k = k.name if isinstance(k, Sym) else k
-            if k not in pool:
-                from ..absint import Raised
-
-                raise Raised("KeyError", node)
-            return var(k)
-
-        def reset_coords(ev, recv, args, kw, node):
-            return recv.with_eff(("reset_coords", tuple(sorted(kw.items()))))
-
-        return {("Dataset", "__getitem__"): getitem, ("DataArray", "reset_coords"): reset_coords}
+        return _models
 
     def reference(registry, key, batch, overwrite):
-        reg = {k: list(v) for k, v in registry.items()}
-        for name in batch:
-            lst = reg.setdefault(key, [])
-            hit = [i for i, old in enumerate(lst) if set(pool[old]) == set(pool[name])]
-            if hit:
-                if not overwrite:
-                    return reg, "raise"
-                for i in hit:
-                    lst[i] = name
-            else:
-                lst.append(name)
-        return reg, "return"
+        return _reference(registry, [(key, batch, overwrite)])
 
     kxy, kx = frozenset({AX, AY}), frozenset({AX})
     initials = {
